@@ -263,6 +263,11 @@ def templates(col, lang):
     for t in M.bodiless_templates(lang):
         r = call_sut(scan, lang, t)
         col.eval({"lang": lang, "text": t}, nontrivial=r[0] == "ok" and len(r[1]) >= 1, labels=["class:bodiless-header", f"lang:{lang}"])
+    from vf.gen.lasttoken import multiline_last_token_templates
+
+    for t in multiline_last_token_templates(lang):
+        r = call_sut(scan, lang, t)
+        col.eval({"lang": lang, "text": t}, nontrivial=r[0] == "ok" and len(r[1]) >= 1, labels=["class:multi-line-last-token", f"lang:{lang}"])
     for d in (1, 2, 5, 30):
         for kind, t in M.deep_templates(lang, d):
             r = call_sut(scan, lang, t)
